@@ -122,6 +122,16 @@ def run(prog: Program, rep, tier: str) -> None:
     rep.check(not bad_arith, "filter-0-comparisons-only", fi.qualname, U(bad_arith[0]) if bad_arith else "",
               "filter_insert performs no arithmetic on filter entries (only comparisons, packing, list building)",
               fi.loc(bad_arith[0]) if bad_arith else fi.loc())
+    conv = []
+    for f_ in [fi] + list(fi.nested.values()) + [prog.func(PF + ".__init__")]:
+        for n in own_nodes(f_.node):
+            if isinstance(n, ast.Call):
+                d = dotted(n.func) or ""
+                if d.endswith(".astype") or any(k.arg == "dtype" for k in n.keywords) or d in ("float", "np.float32", "np.float64", "round", "np.round"):
+                    conv.append((f_, n))
+    rep.check(not conv, "filter-0-comparisons-only", conv[0][0].qualname if conv else fi.qualname, U(conv[0][1])[:80] if conv else "",
+              "filter entries are stored and compared as given (no dtype conversion / rounding, which would make distinct pairs compare equal)",
+              conv[0][0].loc(conv[0][1]) if conv else fi.loc())
 
     # --- rule 1: dominance predicate ------------------------------------------
     pred_names = []
